@@ -3,8 +3,8 @@
 W=$1
 export GOFLAGS=-mod=mod GOPROXY=off GOSUMDB=off GOTOOLCHAIN=local
 cd $W || exit 3
-(cd seeded_demo && timeout 900 go run . >/work/s_with.txt 2>&1; echo "with: rc=$?")
+(cd seeded_demo && timeout 900 go run . >/work/s_with_$(basename $W).txt 2>&1; echo "with: rc=$?")
 git apply -R seeded_demo/patch.diff || { echo "cannot revert"; exit 3; }
-(cd seeded_demo && timeout 900 go run . >/work/s_without.txt 2>&1; echo "without: rc=$? $(tail -1 /work/s_without.txt | cut -c1-100)")
+(cd seeded_demo && timeout 900 go run . >/work/s_without_$(basename $W).txt 2>&1; echo "without: rc=$? $(tail -1 /work/s_without_$(basename $W).txt | cut -c1-100)")
 git apply seeded_demo/patch.diff
 go build ./... && echo build-ok
